@@ -16,6 +16,29 @@ use crate::prng::{Digest, Rng};
 use crate::props::c04;
 
 pub fn generate(kind: &str, seed: u64, run: u64, thorough: bool) -> Scenario {
+    if kind == "threads" {
+        // several callers, each validating ITS OWN rule (some with failing examples, some
+        // without), interleaved by the seeded scheduler at the solver's expression nodes
+        let mut tr = Rng::stream(seed, run, "SCHED");
+        let nt = *tr.pick(&[2usize, 2, 2, 3, 3, 4]);
+        let mut sc = generate("validate", seed, run.wrapping_mul(7), thorough);
+        sc.kind = "threads".into();
+        sc.run = run;
+        sc.strings = vec![sc.rule_text.clone()];
+        for t in 1..nt {
+            let other = generate("validate", seed, run.wrapping_mul(7).wrapping_add(t as u64), thorough);
+            sc.strings.push(other.rule_text);
+        }
+        sc.threads = (0..nt).map(|_| vec![0; 1 + tr.below(3)]).collect();
+        sc.switch_sets = vec![if tr.chance(1, 2) { 0 } else { 15 }];
+        sc.hash_seeds.truncate(1);
+        sc.sched_seed = tr.next_u64();
+        sc.engine_seams = true;
+        if tr.chance(1, 3) {
+            sc.pct = Some((1 + tr.below(3), 50 + tr.below(200)));
+        }
+        return sc;
+    }
     let mut kr = Rng::stream(seed, run, "KNOBS");
     let knobs = gen::Knobs::draw(&mut kr);
     let mut rr = Rng::stream(seed, run, "RULE");
@@ -109,6 +132,17 @@ pub fn generate(kind: &str, seed: u64, run: u64, thorough: bool) -> Scenario {
             let x = tp[er.below(tp.len())].clone();
             tn.push(x);
         }
+        // an example that carries a YAML tag (`- !event {a: foo}`): serde_yaml's is_mapping() and
+        // as_mapping() look through the tag, so it is a mapping like any other
+        if er.chance(1, 8) && (tp.len() + tn.len()) > 0 {
+            let list = if tn.is_empty() || (!tp.is_empty() && er.chance(1, 2)) { &mut tp } else { &mut tn };
+            let i = er.below(list.len());
+            let inner = std::mem::replace(&mut list[i], Yaml::Null);
+            list[i] = Yaml::Tagged(Box::new(serde_yaml::value::TaggedValue {
+                tag: serde_yaml::value::Tag::new(*er.pick(&["event", "doc", "a"])),
+                value: inner,
+            }));
+        }
         if let Some(m) = yaml.as_mapping_mut() {
             m.insert("true_positives".into(), Yaml::Sequence(tp));
             m.insert("true_negatives".into(), Yaml::Sequence(tn));
@@ -176,7 +210,126 @@ fn expected(rule: &Rule) -> Result<Vec<String>, PanicInfo> {
     Ok(failing)
 }
 
+fn validate_outcome(rule: &Rule) -> Result<String, PanicInfo> {
+    guarded(|| match rule.validate() {
+        Ok(b) => format!("Ok({})", b),
+        Err(e) => format!("Err({})", e),
+    })
+}
+
+/// Several simulated callers validate their own rules at the same time; every result must be the
+/// one the same rule gives when validated alone (validate() is a function of the rule).
+fn exec_threads(sc: &Scenario) -> Outcome {
+    use crate::sched::{Sched, Strategy};
+    use std::sync::{Arc, Mutex};
+    let mut stats = Stats::default();
+    let mut d = Digest::new();
+    let mut vs = vec![];
+    tau_engine::verif::set_hash_seed(sc.hash_seeds.first().copied().unwrap_or(0));
+    tau_engine::verif::set_collapse_missing(false);
+    let sw = sc.switch_sets.first().copied().unwrap_or(0);
+    let h = sc.hash_seeds.first().copied().unwrap_or(0);
+    let n = sc.strings.len().min(sc.threads.len());
+    let mut rules = vec![];
+    for text in sc.strings.iter().take(n) {
+        match load(text) {
+            Loaded::Ok(r) => {
+                let r = if sw == 0 {
+                    *r
+                } else {
+                    match optimise(&r, sw, h) {
+                        Ok(o) => o,
+                        Err(_) => return Outcome::clean(&d, stats),
+                    }
+                };
+                rules.push(Arc::new(r));
+            }
+            _ => {
+                stats.inc("load_rejected");
+                return Outcome::clean(&d, stats);
+            }
+        }
+    }
+    if rules.len() < 2 {
+        return Outcome::clean(&d, stats);
+    }
+    stats.inc("rules_loaded");
+    let mut base = vec![];
+    for r in &rules {
+        match validate_outcome(r) {
+            Ok(s) => base.push(s),
+            Err(_) => {
+                stats.inc("validate_panicked_alone_is_the_validate_configuration");
+                return Outcome::clean(&d, stats);
+            }
+        }
+    }
+    if base.iter().any(|b| b.starts_with("Err")) && base.iter().any(|b| b.starts_with("Ok")) {
+        stats.inc("probe_failing_and_passing_rules_validated_together");
+    }
+    let strategy = match (&sc.schedule, sc.pct) {
+        (Some(l), _) => Strategy::Replay(l.clone()),
+        (None, Some((dd, len))) => Strategy::Pct(sc.sched_seed, dd, len),
+        (None, None) => Strategy::Random(sc.sched_seed),
+    };
+    let sched = Sched::new(rules.len(), strategy);
+    let results: Arc<Mutex<Vec<(usize, usize, Result<String, String>)>>> = Arc::new(Mutex::new(vec![]));
+    let mut bodies: Vec<Box<dyn FnOnce() + Send>> = vec![];
+    for (t, r) in rules.iter().enumerate() {
+        let (r, results) = (r.clone(), results.clone());
+        let calls = sc.threads[t].len().max(1);
+        bodies.push(Box::new(move || {
+            for c in 0..calls {
+                let o = validate_outcome(&r).map_err(|p| format!("{} at {}", p.msg, p.site()));
+                results.lock().unwrap().push((t, c, o));
+            }
+        }));
+    }
+    sched.run(bodies, 64 << 20, true);
+    let trace = sched.trace();
+    let results = results.lock().unwrap().clone();
+    for (t, c, o) in &results {
+        d.u64(*t as u64).u64(*c as u64);
+        let got = match o {
+            Ok(s) => s.clone(),
+            Err(e) => format!("panic: {}", e),
+        };
+        d.str(&got);
+        if got != base[*t] {
+            push_violation(
+                &mut vs,
+                Violation::new(
+                    "validate_depends_on_interleaving",
+                    if sw == 0 { "plain".into() } else { "optimised".into() },
+                    format!(
+                        "thread {} call #{}: validate() of its own rule gave {} while {} other caller(s) were validating theirs, but {} alone ({} decisions, {} context switches)\n  rule of this thread:\n{}",
+                        t, c, got.chars().take(300).collect::<String>(), rules.len() - 1,
+                        base[*t].chars().take(300).collect::<String>(), trace.len(), sched.switches(), sc.strings[*t]
+                    ),
+                ),
+            );
+        }
+    }
+    stats.add("sched_decisions", trace.len() as u64);
+    stats.add("context_switches", sched.switches());
+    stats.add("validate_calls_under_schedule", results.len() as u64);
+    let mut td = Digest::new();
+    td.bytes(&trace);
+    if sched.switches() >= 2 {
+        stats.seen("nontrivial", td.str(&sc.strings[0]).finish());
+    }
+    if sched.diverged() {
+        stats.inc("replay_schedule_diverged");
+    }
+    let mut o = Outcome::of(&d, stats, vs);
+    o.trace = Some(trace);
+    o
+}
+
 pub fn execute(sc: &Scenario) -> Outcome {
+    if sc.kind == "threads" {
+        return exec_threads(sc);
+    }
     let mut stats = Stats::default();
     let mut d = Digest::new();
     let mut vs = vec![];
